@@ -43,6 +43,23 @@ CHECKS["C06"] = dict(level="exploration",
    technique="runtime monitor with ground truth by construction and coercion-targeted mutation, cross-checked by a reference coercer",
    design_ref="DESIGN.md §6 C06")
 
+CHECKS["C18"] = dict(level="exploration",
+   text="The real subscriptionclient runs under the race detector against an in-process scripted GraphQL-over-WebSocket (both subprotocols) / SSE upstream: 520 (quick) / 20800 (thorough) seed-determined scenarios cover cancels in every dial, init and subscribe window (windows opened from the server side by withholding the upgrade or connection_ack, and at the ws.subscribe.beforeWrite verif yield point), per-id terminals, interleaved delivery for 3-20 ids, option-tuple variants differing in exactly one component, idle close, abrupt drop and ping silence, plus a 2-64-subscriber stress tier. Every delivered message (origin-tagged payload) is checked against the upstream's own send record; every non-cancelling subscriber is compared with a no-cancel control run; sharing legality comes from the upstream's per-connection record; connection counts return to zero at quiescence (bounded progress, watchdog => inconclusive).",
+   note="Trusted: the harness upstream and recorders, coder/websocket on the server side, httptest loopback TCP, the Go race detector, the ws.subscribe.beforeWrite hook, stack-based observation of goroutines parked in getOrDial. Cleanup/stall verdicts are bounded-progress only.",
+   technique="scripted-window concurrency scenarios + stress under -race, differential control-vs-cancel oracle, origin-tagged payloads, upstream ground truth",
+   design_ref="DESIGN.md §6 C18, notes/scenarios.md")
+
+CHECKS["C12"] = dict(level="exploration",
+   text="The real resolver's subscription machinery runs under the race detector with a fake source, recording writers (one atomic logical clock, overlap detection) and the verif yield/event hooks: enumerated scripted racing pairs at the yield points (source Complete/Error vs unsubscribe, update in flight vs removal, heartbeat vs removal, flush failure, join vs hook failure, every variant x every injected shutdown position) plus 4000 (quick) / 60000 (thorough) seeded random histories of subscribe / update / complete / error / done / unsubscribe / removeClient / heartbeat / writer faults with perturbation. Every history is judged offline: per subscriber delivered is a subsequence of may(s) in source order, contains must(s), no duplicates, each message equals the solo rendering, no writer call after the sub.done event, no overlapping writer calls, at most one terminal call, exactly one sub.done.",
+   note="Trusted: the verif yield/event hooks, the recording writer and its single logical clock, the fake source, the reference filter semantics and projections expected by construction (cross-checked against a private Resolvable), updater.Subscriptions() for attachment.",
+   technique="scripted schedule control at yield points + seeded history generation under -race, offline history checker",
+   design_ref="DESIGN.md §6 C12, Appendix F4")
+CHECKS["C13"] = dict(level="exploration",
+   text="Same rig as C12 plus fault sequences: enumerated start-up fault and race scenarios (Source.Start failing immediately or after context cancel, start-up hook failure, each start-up park point, re-subscribe with the same key while the previous instance is starting, stale Done, shutdown at every step) plus 3000 (quick) / 50000 (thorough) random fault histories. Judged by: equal (input, headers) share one Start instance within a live period and unequal never do; Start once per live trigger; at quiescence registry sizes (0,0,0) through the verif accessor, every recorded Start context cancelled, reporter Inc == Dec for both counters, every subscriber completed with a cause; and a porcupine check of the subscribe/unsubscribe history against a nondeterministic reference-count model (timeout => inconclusive).",
+   note="Trusted: the C12 rig, VerifRegistrySizes, the recording Reporter, Start context observation, porcupine v1.3.0. Leak verdicts need the logical clock idle (bounded progress).",
+   technique="fault enumeration at yield points, conservation/quiescence oracle, linearizability check of recorded histories (porcupine)",
+   design_ref="DESIGN.md §6 C13, Appendix F5")
+
 NOT_YET = {
 }
 
